@@ -78,6 +78,9 @@ def gen_family(rng):
         cfg_lines.append("code_generation_options = [ADD_SERIALIZATION_CONTEXT]")
     if lazy:
         cfg_lines.append("lazy_compilation = True")
+    if rng.random() < 0.3:
+        # the keys __pre_deserialize__ removes ('_poison', '_by') are never seen by the extra-keys check
+        cfg_lines.append("forbid_extra_keys = True")
     cfg = ("    class Config(BaseConfig):\n" + "".join(f"        {l}\n" for l in cfg_lines)) if cfg_lines else ""
     classes = {}
     # leaf-first definition; K0 is the root and refers to later classes
